@@ -131,7 +131,8 @@ def slice_faces_plane(
     """
 
     if len(vertices) == 0:
-        empty = (vertices, faces)
+        # Hand back the faces in the face dtype, as every other return path does.
+        empty = (vertices, faces.astype(FACE_DTYPE))
         if return_face_mapping:
             return (*empty, np.arange(len(faces)))
         else:
